@@ -26,6 +26,12 @@ func nested(inner string, vals []string) []string {
 // leaves returns the value alphabet of one named key for a tier; "absent" is added by the enumerator.
 func leaves(tier string, inner string) []string {
 	switch tier {
+	case "rich": // thorough tier only: full + one-element arrays of every scalar + a few more containers
+		l := leaves("full", inner)
+		for _, sc := range scalars {
+			l = append(l, "["+sc+"]")
+		}
+		return append(l, `false`, `1.5e-3`, `"\u00e9\ud83d\ude00"`, fmt.Sprintf(`[{%q:"a"}]`, inner), fmt.Sprintf(`{%q:[1]}`, inner), fmt.Sprintf(`{%q:"a",%q:"b"}`, inner, inner), `[[]]`, `[1,"a",null]`)
 	case "full":
 		l := append(append([]string{}, scalars...), containers...)
 		l = append(l, nested(inner, []string{`null`, `0`, `1e400`, `""`, `"a"`, long300, badUTF8, `"a\n"`, `[]`, `[{}]`, `{}`})...)
@@ -48,8 +54,9 @@ func leaves(tier string, inner string) []string {
 }
 
 type topKey struct {
-	name  string
-	inner string
+	name   string
+	inner  string
+	nested bool // the config names name.inner: plugin-specific content goes one level down
 }
 
 func topKeys(paths []string) []topKey {
@@ -59,6 +66,7 @@ func topKeys(paths []string) []topKey {
 		k := topKey{name: seg[0], inner: "b"}
 		if len(seg) > 1 {
 			k.inner = seg[1]
+			k.nested = true
 		}
 		dup := false
 		for i := range out {
@@ -66,6 +74,7 @@ func topKeys(paths []string) []topKey {
 				dup = true
 				if len(seg) > 1 {
 					out[i].inner = k.inner
+					out[i].nested = true
 				}
 			}
 		}
@@ -81,16 +90,23 @@ const otherKey = "z"
 // genEvents enumerates ALL objects whose keys are the named top-level keys plus one other key, every key absent or
 // bound to a leaf of its alphabet; the alphabet tier is the richest one whose product fits the cap. Root shapes
 // (arrays, scalars, duplicate / escaped keys, > 16 keys, depth 3) are appended.
-func genEvents(paths []string, extra []string, capN int, otherTier string) ([]string, string) {
+func genEvents(paths []string, extra []string, capN int, otherTier string, tiers []string) ([]string, string) {
 	keys := topKeys(paths)
 	other := leaves(otherTier, "b")
 	tier := ""
 	var alphas [][]string
-	for _, t := range []string{"full", "medium", "small", "tiny"} {
+	for _, t := range tiers {
 		alphas = alphas[:0]
 		total := len(other) + 1
-		for _, k := range keys {
-			a := append(append([]string{}, leaves(t, k.inner)...), extra...)
+		for ki, k := range keys {
+			a := append([]string{}, leaves(t, k.inner)...)
+			if ki == 0 { // plugin-specific content goes to the first (primary) named field
+				if k.nested {
+					a = append(a, nested(k.inner, extra)...)
+				} else {
+					a = append(a, extra...)
+				}
+			}
 			alphas = append(alphas, a)
 			total *= len(a) + 1
 		}
@@ -192,7 +208,11 @@ func defaultSeq(c *cfgSpec, extra []string) []string {
 		if i >= 2 {
 			break
 		}
-		out = append(out, fmt.Sprintf(`{%q:%s}`, k, e))
+		if len(keys) > 0 && keys[0].nested {
+			out = append(out, fmt.Sprintf(`{%q:{%q:%s}}`, k, inner, e))
+		} else {
+			out = append(out, fmt.Sprintf(`{%q:%s}`, k, e))
+		}
 	}
 	if len(keys) > 1 {
 		out = append(out, fmt.Sprintf(`{%q:"a",%q:"a"}`, k, keys[1].name))
